@@ -83,6 +83,17 @@ def gen(rng, tier):
             cases.append(Case("td.hash " + hx(jsonspell.escape_everything(d0)), tags=("respelled", "all-escaped")))
     for c in rng.sample([c for c in cases if c.tags[0] in ("repeated", "foreign", "wrong-type")], 60):
         cases.append(Case("td.hash " + hx(jsonspell.respell(rng, bytes.fromhex(c.line.split(" ")[1]).decode(), p_escape=0.4)), tags=("respelled", "refused")))
+    # perturbed spellings of the right type for each field (signs / spaces / separators / zeros between name and width,
+    # case, surrounding white space): whatever the member-type grammar makes of them, only a text the grammar reads as
+    # exactly the standard type may be accepted (note n6 in DESIGN.md: zero-padded widths are read as the same type)
+    from vlib.core import perturb
+    for i, (n, t) in enumerate(STD):
+        width = "".join(ch for ch in t if ch.isdigit())
+        name = t[:len(t) - len(width)]
+        extra = [name + sep + width for sep in ("+", "-", " ", "_", ".", "0", "+0", "x", "\u200b")] if width else []
+        for w in perturb(t) + extra:
+            add([(a, (w if a == n else b)) for a, b in STD], "perturbed-type")
+            add([(n, w)], "perturbed-type")
     add([], "no-domain-type", include_domain_type=False)
     add([STD[0]], "no-domain-type", include_domain_type=False)
     # every command-line route that reads typed data must apply the same check: hash typeddata, hash typeddata
